@@ -111,12 +111,18 @@ IterPairs(c) ==
     [] OTHER     -> ERR
 
 \* does the switch value match one case expression value?
-CaseMatch(v, cv) ==
-  IF IsRe(cv) THEN (IF IsStr(v) THEN Match(v[2], cv) ELSE SKIP)
+\* A regexp case tests a string.  For a value which is not a string the statement does not say: "print" tests
+\* the printed form of the value, "none" lets no regexp case match it, "skip" leaves the run unconstrained.
+CaseMatchM(v, cv, mode) ==
+  IF IsRe(cv) THEN (IF IsStr(v) THEN Match(v[2], cv)
+                    ELSE IF mode = "print" THEN (IF Inspect(v) = NoPrint THEN SKIP ELSE Match(Inspect(v), cv))
+                    ELSE IF mode = "none" THEN B(FALSE)
+                    ELSE SKIP)
   ELSE IF Tag(v) = Tag(cv) THEN
          (IF Scalar(v) THEN B(v = cv) ELSE SKIP)
   ELSE IF IsNum(v) /\ IsNum(cv) THEN (IF NumCmpOK(v, cv) /\ ~NumEq(v, cv) THEN B(FALSE) ELSE SKIP)
   ELSE B(FALSE)
+CaseMatch(v, cv) == CaseMatchM(v, cv, "skip")
 
 RECURSIVE BindAll(_, _, _)
 BindAll(st, bound, i) == IF i > Len(bound) THEN st ELSE BindAll(Declare(st, bound[i][1], bound[i][2]), bound, i + 1)
@@ -217,7 +223,7 @@ AnyMatch(es, i, v, s, ctx) ==
   IF i > Len(es) \/ ~Live(s) THEN [m |-> FALSE, s |-> s]
   ELSE LET c == NeedValue(Eval(es[i], s, ctx)) IN
        IF ~Live(c.s) THEN [m |-> FALSE, s |-> c.s]
-       ELSE LET m == CaseMatch(v, c.v) IN
+       ELSE LET m == CaseMatchM(v, c.v, ctx.nsre) IN
             IF IsSkip(m) THEN [m |-> FALSE, s |-> Skip(c.s)]
             ELSE IF m[2] THEN [m |-> TRUE, s |-> c.s]
             ELSE AnyMatch(es, i + 1, v, c.s, ctx)
@@ -282,8 +288,9 @@ Exec(st, s, ctx) ==
 (***************************************************************************)
 DIVERGE == <<"DIVERGE">>
 
-RunProgram(prog, g, obj, host, fuel) ==
-  LET ctx == [funcs |-> FuncsOf(prog), obj |-> obj, host |-> host]
+\* mode: what a regexp case does with a value which is not a string (see CaseMatchM)
+RunProgramM(prog, g, obj, host, fuel, mode) ==
+  LET ctx == [funcs |-> FuncsOf(prog), obj |-> obj, host |-> host, nsre |-> mode]
       s == ExecBlock(prog, 1, InitState(g, fuel), ctx)
   IN [out |-> CASE s.st = "err" -> ERR
                 [] s.st = "skip" -> SKIP
@@ -294,4 +301,5 @@ RunProgram(prog, g, obj, host, fuel) ==
       \* after a run that ended normally every scope must be closed; scopes left by a
       \* `return` inside loops/functions are closed by the run itself
       st |-> s.st]
+RunProgram(prog, g, obj, host, fuel) == RunProgramM(prog, g, obj, host, fuel, "skip")
 =============================================================================
